@@ -4,6 +4,7 @@
   `predict`, `read_residuals` — with the machine arithmetic of both build profiles.
 -/
 import FlacModel.Model.Frame
+import FlacModel.Gen.Kernels
 
 namespace Flac
 open Gen
@@ -26,55 +27,40 @@ def structLayout : Layout := fun bs order po =>
   if bs / 2 ^ po < order then .error (.err "InvalidPartitionOrder")
   else .ok ((bs / 2 ^ po - order) :: List.replicate (2 ^ po - 1) (bs / 2 ^ po))
 
-/-! ### machine arithmetic -/
-
-/-- `a + b` in a signed `w`-bit integer -/
-def addW (p : Profile) (w : Nat) (site : String) (a b : Int) : Res Int :=
-  if fitsS w (a + b) then .ok (a + b)
-  else match p with
-    | .debug => .error (.panic site)
-    | .release => .ok (wrapS w (a + b))
-
-def subW (p : Profile) (w : Nat) (site : String) (a b : Int) : Res Int :=
-  if fitsS w (a - b) then .ok (a - b)
-  else match p with
-    | .debug => .error (.panic site)
-    | .release => .ok (wrapS w (a - b))
-
-def mulW (p : Profile) (w : Nat) (site : String) (a b : Int) : Res Int :=
-  if fitsS w (a * b) then .ok (a * b)
-  else match p with
-    | .debug => .error (.panic site)
-    | .release => .ok (wrapS w (a * b))
-
-/-- `x.abs()` for a signed `w`-bit integer (traps on MIN in debug, returns MIN in release) -/
-def absW (p : Profile) (w : Nat) (site : String) (a : Int) : Res Int :=
-  if fitsS w (if a < 0 then -a else a) then .ok (if a < 0 then -a else a)
-  else match p with
-    | .debug => .error (.panic site)
-    | .release => .ok a
-
-/-- Rust `%` (truncated remainder) by 2 -/
-def rem2 (a : Int) : Int := Int.tmod a 2
+/-! ### sample arithmetic — assembled from the kernels regenerated from decode.rs (`Gen/Kernels`) -/
 
 def dot : List Int → List Int → Int
   | x :: xs, c :: cs => x * c + dot xs cs
   | _, _ => 0
 
-/-- `predict` (decode.rs:1736): `hist` is the already reconstructed prefix, most recent first.
-    `w` = 32 for `i32` channels (where `from_i64` is `as i32`), 64 for the `i64` side path. -/
+/-- one step of `predict`: `w` = 32 for `i32` channels, 64 for the `i64` side path -/
+def predictStep (p : Profile) (w : Nat) (residual sum : Int) (shift : Nat) : Res Int :=
+  if w = 32 then decPredictStep32 p residual sum shift else decPredictStep64 p residual sum shift
+
+/-- `predict` (decode.rs:1736): `hist` is the already reconstructed prefix, most recent first. -/
 def predictGo (p : Profile) (w : Nat) (coefs : List Int) (shift : Nat) : List Int → List Int → Res (List Int)
   | hist, [] => .ok hist.reverse
   | hist, r :: rs =>
-    match addW p w "predict: residuals[0] += prediction" r (wrapS w (asr (dot hist coefs) shift)) with
+    match predictStep p w r (dot hist coefs) shift with
     | .error e => .error e
     | .ok v => predictGo p w coefs shift (v :: hist) rs
 
 def predict (p : Profile) (w : Nat) (coefs : List Int) (shift : Nat) (warm res : List Int) : Res (List Int) :=
   predictGo p w coefs shift warm.reverse res
 
-/-- `*i <<= wasted`: bits shifted out are discarded silently in both profiles -/
-def shlW (w wasted : Nat) (x : Int) : Int := wrapS w (x * 2 ^ wasted)
+def mapM' (f : Int → Res Int) : List Int → Res (List Int)
+  | [] => .ok []
+  | a :: as =>
+    match f a with
+    | .error e => .error e
+    | .ok c =>
+      match mapM' f as with
+      | .error e => .error e
+      | .ok cs => .ok (c :: cs)
+
+/-- `*i <<= wasted` -/
+def wastedShl (p : Profile) (w wasted : Nat) (x : Int) : Res Int :=
+  if w = 32 then decWastedShl32 p x wasted else decWastedShl64 p x wasted
 
 /-- samples of one subframe as the crate computes them -/
 def decodeSub (p : Profile) (w bs : Nat) (s : Subframe) : Res (List Int) :=
@@ -84,7 +70,7 @@ def decodeSub (p : Profile) (w bs : Nat) (s : Subframe) : Res (List Int) :=
     | .fixed o warm res => predict p w (fixedCoeffs.getD o []) 0 warm res.residuals
     | .lpc _ warm _ shift coefs res => predict p w coefs shift warm res.residuals) with
   | .error e => .error e
-  | .ok xs => if s.wasted > 0 then .ok (xs.map (shlW w s.wasted)) else .ok xs
+  | .ok xs => if s.wasted > 0 then mapM' (wastedShl p w s.wasted) xs else .ok xs
 
 def zipWithM (f : Int → Int → Res α) : List Int → List Int → Res (List α)
   | a :: as, b :: bs =>
@@ -98,50 +84,44 @@ def zipWithM (f : Int → Int → Res α) : List Int → List Int → Res (List 
 
 /-- mid/side reconstruction of one sample pair in `i32` (decode.rs:1596-1600) -/
 def midSide32 (p : Profile) (mid side : Int) : Res (Int × Int) :=
-  match mulW p 32 "read_subframes: *mid * 2" mid 2 with
+  match decMidSum p mid side with
   | .error e => .error e
-  | .ok m2 =>
-    match absW p 32 "read_subframes: side.abs()" side with
+  | .ok sum =>
+    match decMidLeft p sum side with
     | .error e => .error e
-    | .ok ab =>
-      match addW p 32 "read_subframes: *mid * 2 + side.abs() % 2" m2 (rem2 ab) with
+    | .ok a =>
+      match decMidRight p sum side with
       | .error e => .error e
-      | .ok sum =>
-        match addW p 32 "read_subframes: sum + *side" sum side with
-        | .error e => .error e
-        | .ok a =>
-          match subW p 32 "read_subframes: sum - *side" sum side with
-          | .error e => .error e
-          | .ok b => .ok (asr a 1, asr b 1)
+      | .ok b => .ok (a, b)
 
-/-- the 33-bit variant: everything in `i64` (no trap possible for 33-bit inputs), results `as i32` -/
-def midSide64 (mid side : Int) : Int × Int :=
-  (wrap32 (asr (mid * 2 + rem2 (if side < 0 then -side else side) + side) 1),
-   wrap32 (asr (mid * 2 + rem2 (if side < 0 then -side else side) - side) 1))
+/-- the 33-bit variant (`i64` arithmetic, results narrowed with `as i32`) -/
+def midSide64 (p : Profile) (mid side : Int) : Res (Int × Int) :=
+  match decMidSumWide p mid side with
+  | .error e => .error e
+  | .ok sum =>
+    match decMidLeftWide p sum side with
+    | .error e => .error e
+    | .ok a =>
+      match decMidRightWide p sum side with
+      | .error e => .error e
+      | .ok b => .ok (a, b)
 
 /-- undo channel decorrelation on decoded subframe sample vectors (decode.rs:1492) -/
 def recorrelate (p : Profile) (a : Assign) (bps : Nat) (chs : List (List Int)) : Res (List (List Int)) :=
   match a, chs with
   | .indep _, _ => .ok chs
   | .leftSide, [left, side] =>
-    if bps < 32 then
-      match zipWithM (subW p 32 "read_subframes: *left - *side") left side with
-      | .error e => .error e
-      | .ok r => .ok [left, r]
-    else .ok [left, List.zipWith (fun l s => wrap32 (l - s)) left side]
+    match zipWithM (if bps < 32 then decLeftSide p else decLeftSideWide p) left side with
+    | .error e => .error e
+    | .ok r => .ok [left, r]
   | .sideRight, [side, right] =>
-    if bps < 32 then
-      match zipWithM (addW p 32 "read_subframes: *side += *right") side right with
-      | .error e => .error e
-      | .ok l => .ok [l, right]
-    else .ok [List.zipWith (fun s r => wrap32 (s + r)) side right, right]
+    match zipWithM (if bps < 32 then decSideRight p else decSideRightWide p) side right with
+    | .error e => .error e
+    | .ok l => .ok [l, right]
   | .midSide, [mid, side] =>
-    if bps < 32 then
-      match zipWithM (midSide32 p) mid side with
-      | .error e => .error e
-      | .ok ps => .ok [ps.map (·.1), ps.map (·.2)]
-    else .ok [List.zipWith (fun m s => (midSide64 m s).1) mid side,
-              List.zipWith (fun m s => (midSide64 m s).2) mid side]
+    match zipWithM (if bps < 32 then midSide32 p else midSide64 p) mid side with
+    | .error e => .error e
+    | .ok ps => .ok [ps.map (·.1), ps.map (·.2)]
   | _, _ => .ok chs
 
 /-- arithmetic width the crate uses for subframe `i` -/
